@@ -15,6 +15,11 @@ def pipeline_pos(name, /, scale=2, *rest, **kw):
   return K.node(a=K.two(x=name, y=scale), b=list(rest), c=K.three(**kw))
 
 
+@auto_config.auto_config(experimental_always_inline=False)
+def pipeline_po(name, warm=100, decay=10, /):
+  return K.node(a=K.two(x=name, y=warm), b=decay)
+
+
 @auto_config.auto_config
 def outer(v, w='w'):
   return K.three(a=pipeline(v, 5), b=pipeline('n', flag=w), c=[pipeline(v)])
